@@ -394,6 +394,10 @@ impl Harness {
     pub fn is_thorough(&self) -> bool {
         self.tier == Tier::Thorough
     }
+    /// replaying one saved case: sub-checks that only exist in the thorough tier must be registered as well
+    pub fn is_replay(&self) -> bool {
+        matches!(self.mode, Mode::Replay { .. })
+    }
     /// pick a count by tier
     pub fn n(&self, quick: u64, thorough: u64) -> u64 {
         let n = match self.tier {
